@@ -58,6 +58,10 @@ CHECKS['C20'] = dict(engine='W-loop', level='exploration', design='5/C20',
    text='seeded search over histories of object creation (clone, load, implicit load through call_other, inherit-triggered load, clone by the master with its euid dropped), seteuid (names, 0, own uid), export_uid and destruct performed by objects of different creators, interleaved with run-time changes of the master policy: creator_file answers (Root, Backbone, other names, same-as-loader, 0, array, raised error) and valid_seteuid answers (1, 0, array, string, raised error, apply missing); commands arrive over the simulated socket into the real driver. After every command getuid/geteuid of every live object (tagged objects, blueprints, master) is compared with a reference model that changes a uid only at creation by the creator_file rules or through export_uid from an object with euid onto one without, and an euid only through the object\'s own seteuid that the master was asked about and approved (or to 0); an object without euid (other than the master) must not reach creator_file or create() of anything. Sampling, not proof.',
    note='virtual objects are not driven; the uid for a non-string creator_file answer is the implementation-defined NONAME; bind()/function pointers evaluated in another object are not driven',
    technique='deterministic simulation with fault injection (scripted master policy incl. raised errors and missing apply, hostile call orders, reference model compared after every step)')
+CHECKS['C18'] = dict(engine='W-sweep', level='fault_enumeration', design='5/C18',
+   text='per seeded program layout (up to four programs: main, two inherited levels, a second object; functions placed in the .c files or in headers included at nesting depth 1-3 at the top, middle or end of a file or inside a function body; blank/comment/#define/#if padding, also enough lines to cross 32767 and 65535; statements spanning several lines; statements of more than 255 bytes of code; for/while/if nests; local, inherited, overridden (::), call_other calls; catch; function literals and anonymous functions evaluated later; statements that fail naturally) a fault-free run through the real backend, then one run per instruction k executed by the generated programs with an LPC error injected exactly at k (every k up to the cap). The file, line and trace handed to master::error_handler must be those of a statement that the generator\'s own abstract interpreter says can be executing between the last marker seen and the next; every outer trace frame must name its function, program, object and sit on the lines of its call statement; natural errors must be reported exactly at their statement. Sampling over layouts, enumeration over fault points.',
+   note='programs loaded from saved binaries are not covered; an instruction between two markers may belong to either neighbouring statement (bracket oracle), exact only for natural errors; a loop/if statement spans header to closing brace',
+   technique='deterministic simulation with fault injection (error injected at every executed instruction, oracle from an independent abstract interpreter of the generated layout)')
 PENDING = 'check not built yet (work in progress, see DESIGN.md section 10)'
 
 def main():
